@@ -341,7 +341,7 @@ memcasecmp(const char *b1, const char *b2, SBuf::size_type len)
 {
     int rv=0;
     while (len > 0) {
-        rv = tolower(*b1)-tolower(*b2);
+        rv = tolower(static_cast<unsigned char>(*b1))-tolower(static_cast<unsigned char>(*b2));
         if (rv != 0)
             return rv;
         ++b1;
